@@ -175,6 +175,16 @@ def S3_run_exitstatus(code, sig, signaled, withexit, tneg, exit_at):
     return 3 if r == b'output' else 0
 
 
+def dry_runs():
+    for o0 in range(6):
+        yield 'S1_pty_fate', dict(code=3, sig=9, core=False, signaled=False, exit_at=1, ign_hup=False, ign_int=False,
+                                  o0=o0, o1=1, o2=0)
+        yield 'S1_pty_fate', dict(code=3, sig=9, core=True, signaled=True, exit_at=None, ign_hup=True, ign_int=True,
+                                  o0=4, o1=o0, o2=0)
+    yield 'S2_popen_wait', dict(rc=-9)
+    yield 'S3_run_exitstatus', dict(code=5, sig=1, signaled=False, withexit=True, tneg=False, exit_at=0)
+
+
 MANIFEST_ENTRY = {
     'level_text': 'Bounded symbolic verification through the real pexpect.spawn isalive/wait/close/terminate/kill AND '
                   'the real ptyprocess isalive/wait/close/terminate over a symbolic process world: the wait status '
